@@ -55,8 +55,8 @@ fn contents(len: usize, alpha: u32) -> Vec<Vec<u32>> {
     out
 }
 
-fn mk<const N: usize>(route: u8, start: usize, vals: &[u32], vc: &mut u32) -> Holder<N, ()> {
-    let (mut h, _m) = build::<N, ()>(route, start, vals.len(), None, vc);
+fn mk<const N: usize>(route: u8, start: usize, vals: &[u32], vc: &mut u32) -> Holder<N, Hook> {
+    let (mut h, _m) = build::<N, Hook>(route, start, vals.len(), None, vc);
     for (t, v) in h.buf().iter_mut().zip(vals.iter()) {
         t.set_val(*v);
     }
@@ -90,8 +90,8 @@ pub fn cmp_pair<const N: usize, const M: usize>(ctx: &mut Ctx) {
     let starts_a = if N == 0 { 1 } else { N };
     let starts_b = if M == 0 { 1 } else { M };
     let mut vc = 31u32;
-    let _ = items_off::<N, ()>();
-    let _ = items_off::<M, ()>();
+    let _ = items_off::<N, Hook>();
+    let _ = items_off::<M, Hook>();
     for la in 0..=N {
         for lb in 0..=M {
             // unequal lengths are decided by the length alone: sample one content pair there
